@@ -94,6 +94,16 @@ func record(c *core.Case, v core.Verdict) {
 	if v.Known != "" {
 		stat.Known[v.Known]++
 	}
+	if v.Status == "skip" {
+		k := "skip:" + v.Detail
+		if len(k) > 60 {
+			k = k[:60]
+		}
+		stat.Extra[k]++
+		if stat.Extra[k] <= 2 {
+			stat.Extra["skipq:"+c.Query]++
+		}
+	}
 	if v.Status == "infra" && len(stat.Infra) < 5 {
 		stat.Infra = append(stat.Infra, v.Detail)
 	}
